@@ -251,7 +251,9 @@ impl PurlShape for PackageType {
         match self {
             PackageType::Cargo | PackageType::Gem | PackageType::Npm | PackageType::Golang => {},
             PackageType::Maven => {
-                if parts.namespace.is_empty() {
+                // A namespace that consists only of path separators has no segments: it is
+                // written as `//` and parsed back as no namespace at all.
+                if parts.namespace.trim_matches('/').is_empty() {
                     return Err(PackageError::MissingRequiredField(PurlField::Namespace));
                 }
             },
